@@ -30,14 +30,14 @@ CLAIMED = {
     "C03": dict(engine="coq-seq", design="DESIGN.md 6 C03",
                 technique="machine-checked proof in Coq (per-operator induction over arbitrary interleavings of the sources' events, with the StreamController bookkeeping invariant) + three-way correspondence impl = Seq = MLoc and the specification oracle on every implementation observation",
                 text="Theorems C03_merge / C03_zip / C03_amb (any number of sources) and C03_take_until / C03_skip_until / C03_sample: for EVERY sequential interleaving of the sources' events (unbounded, ill-formed sources included) "
-                     "the operator's handler table delivers exactly what its ReactiveX definition assigns to that interleaving. Partial: concat, flat_map, switch_on_next, on_error_resume_next, ready_set_go and nestings with C02 operators "
+                     "the operator's handler table delivers exactly what its ReactiveX definition assigns to that interleaving; C03_concat / C03_on_error_resume_next: the same for the two operators that subscribe further sources later (the local semantics registers the new observer when the handler asks for the subscription). Partial: flat_map, switch_on_next, ready_set_go and nestings with C02 operators "
                      "are decided by the correspondence impl = sequential machine (no operator theorem); combine_latest (D9) and sequence_equal (D10) are recorded known findings with witnesses C03_known_D9_witness / C03_known_D10_witness. "
                      "Tie: all interleavings of two hot sources up to length 4 (5), random ones for 3-4 sources, cold sources subscribed in the crate's order."),
     "C04": dict(engine="coq-seq", design="DESIGN.md 6 C04",
                 technique="machine-checked proof in Coq (case analysis of every handler for error pass-through; induction over the list of attempts for retry / retry_when; list lemma for dematerialize after materialize) + specification oracles on every implementation observation and three-way correspondence",
                 text="Theorems C04_error_passthrough (every non-handler operator, every state: exactly one sink_error with the same payload, last), C04_retry / C04_retry_when (for every list of attempts the handler table forwards the "
                      "items of attempts 1..m and makes exactly m subscriptions, m = first non-failing attempt capped by the budget), C04_dematerialize_materialize. Where an error arrives in a pipeline and what precedes it follows from "
-                     "C02_composition / C03_* whose inputs include the failing ending. Partial: on_error_resume_next is decided by its specification oracle on the implementation only. Tie: errors with distinct payload ids injected at "
+                     "C02_composition / C03_* whose inputs include the failing ending; C04_on_error_resume_next: the source's items, then - iff it failed - the items and the terminal of the observable chosen for the error, whose own error is final, for every interleaving of the two. Tie: errors with distinct payload ids injected at "
                      "every position of every script through every C02 operator, chains and C03 operators; retry budgets 0..4 and every retry_when predicate over sources whose k-th subscription differs, with the source's subscription "
                      "counter compared to the definition's; resume targets from the family."),
     "C05": dict(engine="coq-seq", design="DESIGN.md 6 C05",
